@@ -144,7 +144,8 @@ class Escape:
                 while isinstance(base, ast.Call) and call_name(base) in ("values", "items", "__val__", "__elem__") and (base.args or isinstance(base.func, ast.Attribute)):
                     base = base.func.value if isinstance(base.func, ast.Attribute) else base.args[0]
                 tn = base.attr if isinstance(base, ast.Attribute) else (base.id if isinstance(base, ast.Name) else None)
-                nested = tn in NESTED_OBJECTS or (tn in NESTED_ROWS and nm != "copy")
+                # a shallow copy of an *object* some method built (copy(self._infrastructure_info())) shares every field with the original
+                nested = tn in NESTED_OBJECTS or (tn in NESTED_ROWS and nm != "copy") or (nm == "copy" and isinstance(base, ast.Call))
                 return k if nested else FRESH
             if nm in ALIAS_PRESERVING:
                 recv = self.cl(f.value, m) if isinstance(f, ast.Attribute) else worst(self.cl(a, m) for a in e.args)
